@@ -9,7 +9,10 @@ fn check_tables(text: &[u8], k: u32) -> Result<(), String> {
     let text = text.to_vec();
     guarded(move || {
         let n = text.len();
-        let alphabet = Alphabet::new(&text);
+        // the alphabet may be a strict superset of the text symbols ("forall alphabets containing the text symbols")
+        let mut asym = text.clone();
+        if k % 2 == 1 { asym.extend_from_slice(b"$ACGTNacgtnxyz~"); }
+        let alphabet = Alphabet::new(&asym);
         let sa = suffix_array(&text);
         // naive suffix order (final sentinel smallest; texts here have a single sentinel)
         let b = bwt(&text, &sa);
